@@ -90,7 +90,29 @@ class MWorld(World):
             return n in ("Exception", "BaseException")
         if o.kind == "observer":
             return n == "ObserverBase"
+        if o.kind == "abs_time":
+            return n.split(".")[-1] == "datetime"
+        if o.kind in ("rel_time", "rel_part"):
+            return n.split(".")[-1] == "timedelta" and o.kind == "rel_time"
         return super().isinstance(it, o, cls)
+
+    def binop(self, it, op, a, b):
+        import ast as _ast
+        if isinstance(op, _ast.Sub) and isinstance(a, Opaque) and a.kind == "abs_time" and isinstance(b, Opaque) and b.kind == "abs_time":
+            # datetime - datetime: THE timedelta between them (an opaque value: identified by its two operands)
+            return Opaque("rel_time", f"({a.name} - {b.name})", minuend=a, subtrahend=b)
+        raise Unsupported(f"binary operation on {getattr(a, 'kind', a)} / {getattr(b, 'kind', b)}")
+
+    def getattr(self, it, o, name):
+        if o.kind == "scheduler" and name == "now":
+            self.n += 1
+            t = Opaque("abs_time", f"scheduler.now#{self.n}")
+            self.log.append(("now", t))
+            return t
+        if o.kind == "rel_time":
+            # a component of the timedelta (.seconds, .days, .microseconds) or something computed from it is NOT the timedelta
+            return Opaque("rel_part", f"{o.name}.{name}", of=o)
+        return super().getattr(it, o, name)
 
     def length(self, it, o):
         if o.kind == "str":
@@ -209,6 +231,8 @@ class MarbleHarness:
 
         def my_isinstance(it_, a, k):
             n = getattr(a[1], "name", "") or ""
+            if isinstance(a[0], Opaque) and a[0].kind in ("abs_time", "rel_time", "rel_part"):
+                return w.isinstance(it_, a[0], a[1])
             if n.endswith("timedelta") or n.endswith("datetime"):
                 return False
             return base_isinstance.fn(it_, a, k)
@@ -465,9 +489,21 @@ class MarbleHarness:
                 it.call(it.get_attr(res, "dispose"), [], {})
             self.rec(ctx, uid + "/dispose/cancels-every-scheduled-message", {e[1] for e in w.log[n0:] if e[0] == "dispose"} >= {sc[0][4], sc[1][4]})
             return
+        absolute = ctx.choose(2, "the due time is absolute (a datetime)") == 1
+        if absolute:
+            due = Opaque("abs_time", "duetime")
         obs = it.call(f, [string], {"timespan": ts, "duetime": due, "scheduler": sched})
-        ok = len(parsed) == 1 and parsed[0][1].get("timespan") is ts and parsed[0][1].get("time_shift") is due and parsed[0][1].get("raise_stopped") is True
-        self.rec(ctx, uid + "/parses-once-with-the-timespan-shifted-by-the-due-time", ok)
+        if absolute:
+            shift = parsed[0][1].get("time_shift") if len(parsed) == 1 else None
+            nows = [e[1] for e in w.log if e[0] == "now"]
+            ok = (isinstance(shift, Opaque) and shift.kind == "rel_time" and shift.attrs["minuend"] is due and len(nows) == 1
+                  and shift.attrs["subtrahend"] is nows[0] and parsed[0][1].get("timespan") is ts and parsed[0][1].get("raise_stopped") is True)
+            self.rec(ctx, uid + "/an-absolute-due-time-shifts-by-its-whole-distance-from-the-scheduler's-clock", ok,
+                     detail=f"time_shift handed to parse: {shift!r} (must be the timedelta duetime - scheduler.now itself, read once; parse converts it with "
+                            f"total_seconds - a component such as .seconds drops days and fractions)")
+        else:
+            ok = len(parsed) == 1 and parsed[0][1].get("timespan") is ts and parsed[0][1].get("time_shift") is due and parsed[0][1].get("raise_stopped") is True
+            self.rec(ctx, uid + "/parses-once-with-the-timespan-shifted-by-the-due-time", ok)
         sc = [e for e in w.log if e[0] == "schedule"]
         ok = len(sc) == 2 and all(e[1] == "schedule_relative" for e in sc)
         self.rec(ctx, uid + "/one-schedule_relative-per-message-at-creation", ok)
